@@ -9,6 +9,7 @@ import (
 	"math/big"
 	"os"
 	"strconv"
+	"strings"
 	"testing"
 
 	"verifharness/lib/ev"
@@ -285,6 +286,8 @@ func f47Stride(c f47cfg) (q, th int) {
 			return 20, 1
 		}
 		return 4, 1
+	case strings.HasSuffix(c.g, ".const"):
+		return 2, 1
 	case c.g == "cmp.IsLessBinary" || c.g == "cmp.IsLessOrEqualBinary":
 		if c.p[0] >= 6 {
 			return 1 << (2*c.p[0] - 9), 1
@@ -401,6 +404,8 @@ func TestF47Adversary(t *testing.T) {
 			e.group(4, 1)
 		case cfg.g == "cmp.IsLess" || cfg.g == "cmp.IsLessOrEqual":
 			e.group(4, 1)
+		case strings.HasSuffix(cfg.g, ".const"):
+			e.group(10, 1)
 		case cfg.g == "sel.Decoder":
 			e.group(2, 1)
 		default:
